@@ -316,7 +316,7 @@ def _p_values_worker(
 
     # make sure these are consecutive
     delta = np.unique(np.diff(idx_values))
-    if len(delta) != 1 or delta[0] != 1:
+    if len(idx_values) > 1 and (len(delta) != 1 or delta[0] != 1):
         raise RuntimeError(
             "p-value worker was passed non-consecutive pairs")
 
